@@ -55,7 +55,7 @@ int main(void)
 	const br_x509_class **xsp = &xs.vtable;
 	static unsigned char nbuf[NL];
 #ifdef NATIVE_REPLAY
-	memset(&cctx, 0, sizeof cctx);
+	NATIVE_FILL(&cctx, sizeof cctx);
 #endif
 	the_keyp = &key_obj;
 	xs.vtable = &xstub_vtable;
